@@ -58,6 +58,7 @@ func TestCheck(t *testing.T) {
 		{name: "CMapImpl", opts: tlc.Opts{Dir: specDir, Module: "CMapImpl", Config: ev.Pick("MC_small.cfg", "MC_big.cfg"), Workers: 6, Timeout: ev.Pick(4*time.Minute, 30*time.Minute), HeapMB: 12000, Args: noTE}},
 		{name: "CMapImpl/defect-loadanddelete-split", wantDefect: true, opts: tlc.Opts{Dir: specDir, Module: "CMapImpl", Config: "MC_defect_lad.cfg", Workers: 2, Timeout: 3 * time.Minute, Args: noTE}},
 		{name: "CMapImpl/defect-range-split", wantDefect: true, opts: tlc.Opts{Dir: specDir, Module: "CMapImpl", Config: "MC_defect_range.cfg", Workers: 2, Timeout: 3 * time.Minute, Args: noTE}},
+		{name: "CMapImpl/defect-range-leaks-rlock", wantDefect: true, opts: tlc.Opts{Dir: specDir, Module: "CMapImpl", Config: "MC_defect_leak.cfg", Workers: 2, Timeout: 3 * time.Minute, Args: noTE}},
 		{name: "CMapImpl/defect-no-doublecheck", wantDefect: true, opts: tlc.Opts{Dir: specDir, Module: "CMapImpl", Config: "MC_defect_dc.cfg", Workers: 2, Timeout: 3 * time.Minute, Args: noTE}},
 		{name: "RingMC", opts: tlc.Opts{Dir: specDir, Module: "RingMC", Config: ev.Pick("RingMC_small.cfg", "RingMC_big.cfg"), Workers: 4, Timeout: ev.Pick(4*time.Minute, 20*time.Minute), HeapMB: 8000, Args: noTE, Keep: []string{"trans.ndjson"}}},
 		{name: "BufRingImpl", opts: tlc.Opts{Dir: specDir, Module: "BufRingImpl", Config: ev.Pick("BufMC_small.cfg", "BufMC_big.cfg"), Workers: 2, Timeout: ev.Pick(4*time.Minute, 20*time.Minute), Args: noTE}},
@@ -84,16 +85,36 @@ func TestCheck(t *testing.T) {
 		lines [][]byte // reset line + one JSON line per record (kept instead of the maps: 10x smaller)
 	}
 	var hists []hrec
+	nProbes := 2 * len(probeWrites)
 	overlaps := 0
 	byProg := map[string]int{}
+	// an operation that never returns (watchdog) ends its run with a "hung" record; after three such runs on an
+	// object no further program touching that object is started (a wedged container costs seconds, not the test timeout)
+	hungRuns := map[string]int{}
+	nHung, nSkipped := 0, 0
 	record := func(p program, lockstep bool) {
-		evs, over := runProgram(p, rng, lockstep)
+		for obj := range programObjs(p) {
+			if hungRuns[obj] >= 3 {
+				nSkipped++
+				return
+			}
+		}
+		evs, over, hung := runProgram(p, rng, lockstep)
 		hists = append(hists, hrec{p, marshalHistory(p.Name, evs)})
+		if hung {
+			nHung++
+			for obj := range hungObjs(evs) {
+				hungRuns[obj]++
+			}
+		}
 		if over {
 			overlaps++
 			byProg[p.Name]++
 			e.Nontrivial("lin:" + histKey(evs))
 		}
+	}
+	for i := 0; i < nProbes; i++ { // sequential probes first: they give hangs a deterministic name
+		record(probeProgram(i), false)
 	}
 	for i := 0; i < nRandom; i++ {
 		record(randomProgram(rng), rng.Intn(2) == 0)
@@ -101,10 +122,18 @@ func TestCheck(t *testing.T) {
 	for i := 0; i < nDuel; i++ {
 		record(duelProgram(rng, i), rng.Intn(5) != 0)
 	}
+	nTight := ev.Pick(600, 6000) // extra rounds of the two duels with the narrowest windows
+	for i := 0; i < nTight; i++ {
+		record(duelProgram(rng, 12+2*(i%2)), true)
+	}
 	nStaged := ev.Pick(400, 4000)
 	for i := 0; i < nStaged; i++ {
 		record(stagedProgram(rng, i), false)
 	}
+	if nHung > 0 {
+		fmt.Printf("watchdog: %d runs ended with an operation that never returned; %d programs skipped afterwards %v\n", nHung, nSkipped, hungRuns)
+	}
+	e.Set("hung_runs", int64(nHung))
 	var mcwg, side sync.WaitGroup
 	defer side.Wait()
 	defer mcwg.Wait()
@@ -132,7 +161,7 @@ func TestCheck(t *testing.T) {
 		// (3) buffered ring
 		nBuf = bufTraces(e, rand.New(rand.NewSource(ev.Seed()+2000003)))
 	}()
-	fmt.Printf("histories: %d recorded (%d random, %d duels, %d staged Range/ForEach or sequential), %d with overlapping calls %v\n", len(hists), nRandom, nDuel, nStaged, overlaps, byProg)
+	fmt.Printf("histories: %d recorded (%d probes, %d random, %d+%d duels, %d staged Range/ForEach or sequential), %d with overlapping calls %v\n", len(hists), nProbes, nRandom, nDuel, nTight, nStaged, overlaps, byProg)
 	const chunk = 12000
 	linOpts := func(w int) tlc.Opts {
 		return tlc.Opts{Dir: specDir, Module: "TraceLin", Config: "TraceLin.cfg", Workers: w, Timeout: ev.Pick(6*time.Minute, 40*time.Minute), HeapMB: 12000}
@@ -196,7 +225,7 @@ func TestCheck(t *testing.T) {
 	e.Set("states", states)
 	e.Set("transitions", transitions)
 	e.Set("checker_cmd", strings.Join(cmds, " ; "))
-	e.Set("defect_models_rejected", []string{"CMapImpl lad-split (LinOK)", "CMapImpl range-split (LinOK)", "CMapImpl no-doublecheck (SameHandle)", "BufRingImpl unlink-one-early (Refines)", "BufRingImpl empty-by-front-value (Refines)"})
+	e.Set("defect_models_rejected", []string{"CMapImpl lad-split (LinOK)", "CMapImpl range-split (LinOK)", "CMapImpl range-leaks-rlock (NoStuckWaiter)", "CMapImpl no-doublecheck (SameHandle)", "BufRingImpl unlink-one-early (Refines)", "BufRingImpl empty-by-front-value (Refines)"})
 
 	side.Wait()
 	evals += nGraph + nRingTraces + nBuf
@@ -204,7 +233,7 @@ func TestCheck(t *testing.T) {
 
 	e.Set("evaluations", evals)
 	e.Set("traces_validated_against_impl", traces)
-	e.Set("rule", "histories: random programs of 2-4 goroutines x 1-5 operations x 1-3 keys on cmap.Map / cmap.Atomic+AtomicValue / slice.Slice (or all three) with seeded Gosched yields, plus 9 contention duels (N x LoadAndDelete after one Store; Store/LoadAndDelete/Store; concurrent GetOrCreate+Add; GetOrCreate vs Delete with orphaned handles; Adds on a shared handle; Append vs Slice; Range/Keys vs Clear; Delete vs LoadAndDelete; ForEach vs GetOrCreate), plus staged programs in which the callback of Range / ForEach, after its first entry, lets a writer go that rewrites / deletes / re-creates every key in key order or reverse key order and gives it 300 us (never waits for it); call record under one mutex before the call, ret record after the return; accepted iff TLC finds a linearization; non-trivial = at least two calls in flight at once, distinct by recorded history. rings: every (state, operation, argument) of Ring.tla over N cells (all partitions into rings of sizes 1..N, nil ring, Move/Unlink arguments -N-1..N+2) replayed on ring.Ring and container/ring, once with New(k) rings and once with every one-element ring an untouched zero-value Ring; random walks of 60-100 operations over New(0..5) + New(0..3) + a zero Ring; all Link/Unlink sequences up to depth d. buffered: all AppendBack/RemoveFront strings of length L (never removing from an empty queue) for initial and buffer sizes -1..5 with Len/Front/Range/stopped Range after every step, plus random strings of length 60-200.")
+	e.Set("rule", "histories: random programs of 2-4 goroutines x 1-5 operations x 1-3 keys on cmap.Map / cmap.Atomic+AtomicValue / slice.Slice (or all three) with seeded Gosched yields, plus 9 contention duels (N x LoadAndDelete after one Store; Store/LoadAndDelete/Store; concurrent GetOrCreate+Add; GetOrCreate vs Delete with orphaned handles; Adds on a shared handle; Append vs Slice; Range/Keys vs Clear; Delete vs LoadAndDelete; ForEach vs GetOrCreate), plus staged programs in which the callback of Range / ForEach, after its first entry, lets a writer go that rewrites / deletes / re-creates every key in key order or reverse key order and gives it 300 us (never waits for it); call stamped (one global atomic sequence number) before the call, ret stamped after the return, Tight operations share one stamp with the ret before them; every run under a 2 s watchdog (an operation that never returns ends the history with a hung record, which TLC never accepts); accepted iff TLC finds a linearization; non-trivial = at least two calls in flight at once, distinct by recorded history. rings: every (state, operation, argument) of Ring.tla over N cells (all partitions into rings of sizes 1..N, nil ring, Move/Unlink arguments -N-1..N+2) replayed on ring.Ring and container/ring, once with New(k) rings and once with every one-element ring an untouched zero-value Ring; random walks of 60-100 operations over New(0..5) + New(0..3) + a zero Ring; all Link/Unlink sequences up to depth d. buffered: all AppendBack/RemoveFront strings of length L (never removing from an empty queue) for initial and buffer sizes -1..5 with Len/Front/Range/stopped Range after every step, plus random strings of length 60-200.")
 
 	selfTest(e)
 }
@@ -214,6 +243,45 @@ func TestCheck(t *testing.T) {
 // One violation is reported per object: that of its shortest rejected history
 // (the most direct manifestation); the others are summarised in its replay file.
 func classifyRejected(e *ev.Evidence, o tlc.Opts, rejected []int, get func(int) (program, []tv.M)) {
+	// histories that end in a "hung" record (TLC has no rule that consumes it): per object, the first sequential
+	// one names the finding; hangs seen only in concurrent programs get the generic key
+	{
+		var rest []int
+		type hang struct {
+			key, what string
+			hist      int
+			seq       bool
+		}
+		perObj := map[string]*hang{}
+		var order []string
+		nh := 0
+		for _, hi := range rejected {
+			p, evs := get(hi)
+			if len(evs) == 0 || evs[len(evs)-1]["ev"] != "hung" {
+				rest = append(rest, hi)
+				continue
+			}
+			nh++
+			obj, key, what := hangKey(p, evs)
+			cur := perObj[obj]
+			seq := len(p.Procs) == 0
+			if cur == nil {
+				perObj[obj] = &hang{key, what, hi, seq}
+				order = append(order, obj)
+			} else if seq && (!cur.seq || hi < cur.hist) {
+				*cur = hang{key, what, hi, seq}
+			}
+		}
+		for _, obj := range order {
+			h := perObj[obj]
+			p, evs := get(h.hist)
+			e.Violation(h.key, fmt.Sprintf("%s (watchdog %s; %d runs ended this way)", h.what, watchdog, nh), tv.M{"program": p, "history": traceText(evs), "raw": evs})
+		}
+		rejected = rest
+		if len(rejected) == 0 {
+			return
+		}
+	}
 	sort.SliceStable(rejected, func(i, j int) bool {
 		_, a := get(rejected[i])
 		_, b := get(rejected[j])
